@@ -29,6 +29,8 @@ struct Boundary {
     snap: Snap,
     /// how many messages of `msgs` lie before this boundary
     n_msgs: usize,
+    /// the message that ends here was acknowledged with NOERROR (the initial dump counts as acknowledged)
+    acked: bool,
 }
 
 /// what identifies one journal row on disk: rowid, timestamp column, record blob
@@ -113,6 +115,18 @@ fn same_state(a: &Snap, b: &Snap) -> bool {
 }
 
 impl Hist {
+    /// The open finding covers a STOP between the rows of one *acknowledged* UPDATE (or inside the initial dump) and
+    /// nothing else: rows that a refused message left behind are not a row group of anything.
+    fn cut_class(&self, k: usize) -> &'static str {
+        if self.boundaries.iter().any(|b| b.rows == k) {
+            return "";
+        }
+        match self.boundaries.iter().find(|b| b.rows > k) {
+            Some(b) if b.acked => CL_CUT,
+            _ => "",
+        }
+    }
+
     /// is `s` the live state at a boundary not older than `last`?
     fn boundary_state(&self, last: Option<usize>, s: &Snap) -> bool {
         match last {
@@ -132,8 +146,8 @@ impl Hist {
         }
         rec.stat("recovery.modified-the-journal");
         let last = self.boundaries.iter().rposition(|b| b.rows <= k);
-        let inside = !self.boundaries.iter().any(|b| b.rows == k);
-        let class = if inside { CL_CUT } else { "" };
+        let class = self.cut_class(k);
+        let inside = !class.is_empty();
         let common = before.iter().zip(after.iter()).take_while(|(a, b)| a == b).count();
         let tmp = self.dir.join("second.sqlite");
         for i in common..=after.len() {
@@ -174,9 +188,9 @@ impl Hist {
     fn judge_cut(&self, k: usize, got: &Result<Snap, String>, rec: &mut Recorder, idx: usize) {
         // last boundary whose rows are all on disk = the last acknowledged message
         let last = self.boundaries.iter().rposition(|b| b.rows <= k);
-        let inside = !self.boundaries.iter().any(|b| b.rows == k);
-        let class = if inside { CL_CUT } else { "" };
-        rec.stat(if inside { "cut.inside-row-group" } else { "cut.at-boundary" });
+        let class = self.cut_class(k);
+        let inside = !class.is_empty();
+        rec.stat(if inside { "cut.inside-row-group" } else if self.boundaries.iter().any(|b| b.rows == k) { "cut.at-boundary" } else { "cut.inside-rows-of-a-refused-message" });
         match got {
             Err(e) => {
                 rec.stat(&format!("oracle.fail.{}", if inside { CL_CUT } else { "UNCLASSIFIED" }));
@@ -244,7 +258,7 @@ impl Hist {
                 if rows_after != rows_before {
                     // the recovery renumbered / rewrote the rows: the recovered state is the only boundary left
                     if let Ok(s) = &got {
-                        self.boundaries = vec![Boundary { rows: rows_after.len(), snap: s.clone(), n_msgs }];
+                        self.boundaries = vec![Boundary { rows: rows_after.len(), snap: s.clone(), n_msgs, acked: true }];
                     }
                 }
                 // a twin that never restarted: initial zone + the surviving messages
@@ -281,8 +295,11 @@ fn exec(line: &str, hist: &mut Hist, rec: &mut Recorder) {
                 h.set_journal(j).await;
                 h.persist_to_journal().await
             });
-            if persisted.is_err() {
-                rec.stat("skipped.persist-failed");
+            if let Err(e) = persisted {
+                // the journal of this zone cannot even be started (and holds a partial dump now)
+                let idx = rec.case(line.to_string(), "begin-failed".to_string());
+                rec.stat("op.beginj.failed");
+                rec.fail(idx, format!("persist_to_journal failed on the initial zone after {} row(s): {e}", count_rows(&hist.live)), "");
                 return;
             }
             let s = c12::snapshot(&hist.rt, &h);
@@ -292,7 +309,7 @@ fn exec(line: &str, hist: &mut Hist, rec: &mut Recorder) {
             hist.origin = o;
             hist.initial = rs;
             hist.msgs.clear();
-            hist.boundaries = vec![Boundary { rows, snap: s, n_msgs: 0 }];
+            hist.boundaries = vec![Boundary { rows, snap: s, n_msgs: 0, acked: true }];
             hist.h = Some(h);
             hist.restarts = 0;
             hist.n_files = 0;
@@ -333,13 +350,18 @@ fn exec(line: &str, hist: &mut Hist, rec: &mut Recorder) {
             if res == "panic" {
                 rec.fail(idx, "update panicked".to_string(), "");
             }
+            let acked = stage == "apply" && res.starts_with("ok");
+            if !acked && rows != prev_rows {
+                // a refused update must leave no trace: these rows would be replayed by the next start
+                rec.fail(idx, format!("the update was refused ({stage}/{res}) but left {} row(s) in the journal", rows.saturating_sub(prev_rows)), "");
+            }
             if stage == "apply" && !res.starts_with("ok") && res != "panic" {
                 // the rows of this message are in the journal already (write-ahead): replay will meet the same error
                 rec.fail(idx, format!("update_records answered {res} after pre_scan had accepted the update section; its rows are already journalled"), "");
             }
             hist.msgs.push((p, u));
             let n_msgs = hist.msgs.len();
-            hist.boundaries.push(Boundary { rows, snap: after, n_msgs });
+            hist.boundaries.push(Boundary { rows, snap: after, n_msgs, acked });
         }
         ["cut", k] | ["cut", k, _] => {
             if let (Some(_), Ok(k)) = (hist.h.as_ref(), k.parse::<usize>()) {
@@ -396,6 +418,54 @@ fn gen_begin(rng: &mut Rng) -> String {
     b
 }
 
+/// Directed histories (both tiers): an RR with large RDATA — TXT of 300 … 65 000 octets, NULL / unknown type, a
+/// 254-octet owner name — at every position of a three-RR update and in the initial zone, then a delete of it,
+/// stop / recover at every row, restart, one more message, every row again.
+fn directed_large() -> Vec<Vec<String>> {
+    let origin = name_tok(&Name::from_ascii("example.com.").unwrap());
+    let tok = |name: &str, t: u16, c: u16, ttl: u32, rd: &str| format!("{},{t},{c},{ttl},{rd}", name_tok(&Name::from_ascii(name).unwrap()));
+    let base = |extra: &[String]| {
+        let mut v = vec![
+            tok("example.com.", 6, 1, 3600, "s100.0"),
+            tok("example.com.", 2, 1, 3600, "x036e7331076578616d706c6503636f6d00"),
+            tok("a.example.com.", 1, 1, 300, "x0a000001"),
+        ];
+        v.extend_from_slice(extra);
+        format!("beginj {origin} {}", v.join(" "))
+    };
+    let small1 = tok("b.example.com.", 1, 1, 300, "x0a000002");
+    let small2 = tok("c.example.com.", 1, 1, 300, "x0a000003");
+    let mut out = vec![];
+    let mut forms: Vec<(String, u16, usize)> = c12::LARGE_SIZES.iter().map(|s| ("b.example.com.".to_string(), c12::T_TXT, *s)).collect();
+    forms.push(("b.example.com.".into(), c12::T_NULL, 513));
+    forms.push(("b.example.com.".into(), c12::T_NULL, 4000));
+    forms.push(("b.example.com.".into(), 65280, 513));
+    forms.push(("b.example.com.".into(), 65280, 16000));
+    forms.push((c12::LONG_OWNER.into(), c12::T_TXT, 513));
+    forms.push((c12::LONG_OWNER.into(), c12::T_TXT, 300));
+    for (owner, t, size) in forms {
+        let rd = c12::large_rdata_tok(t, size);
+        let big = tok(&owner, t, 1, 300, &rd);
+        let del = tok(&owner, t, 254, 0, &rd);
+        for pos in 0..3 {
+            let mut rrs = vec![small1.clone(), small2.clone()];
+            rrs.insert(pos, big.clone());
+            out.push(vec![
+                base(&[]),
+                format!("upd P U {}", rrs.join(" ")),
+                "cutall".into(),
+                "restartb 0".into(),
+                format!("upd P U {del} {small1}"),
+                "cutall".into(),
+                "end".into(),
+            ]);
+        }
+        // … and in the initial zone (the dump), with an update around it
+        out.push(vec![base(&[big.clone()]), format!("upd P U {small1} {del} {small2}"), "cutall".into(), "end".into()]);
+    }
+    out
+}
+
 fn gen_history(rng: &mut Rng) -> Vec<String> {
     let mut v = vec![gen_begin(rng)];
     for _ in 0..rng.range(1, 6) {
@@ -439,6 +509,14 @@ pub fn run(o: &Opts, rec: &mut Recorder) {
         exec(l, &mut hist, rec);
     }
     rec.corpus_cases = rec.cases.len();
+    c12::GIANTS.store(o.thorough(), std::sync::atomic::Ordering::Relaxed);
+    if !o.replay_only {
+        for h in directed_large() {
+            for l in h {
+                exec(&l, &mut hist, rec);
+            }
+        }
+    }
     let mut rng = Rng::new(o.seed);
     for _ in 0..o.n(150, 6000) {
         let mut r = rng.fork();
